@@ -17,15 +17,17 @@ import (
 
 // handlerInfo describes one of the error handlers of package url.
 type handlerInfo struct {
-	Fn       *ssa.Function
-	UrlIdx   int // parameter index of *Url — or, when UrlField ≥ 0, of the object that carries it (`r reporter` with r.url)
-	UrlField int // -1, or the index of the *Url field of the carrier parameter
-	TypeIdx  int // parameter index of errors.ErrorType
-	FailIdx  int // parameter index of the failure flag
-	DescrIdx int // -1 if none
-	CauseIdx int // -1 if none
-	Ctor     *ssa.Function
-	CtorCall *ssa.Call
+	Fn        *ssa.Function
+	UrlIdx    int // parameter index of *Url — or, when UrlField ≥ 0, of the object that carries it (`r reporter` with r.url)
+	UrlField  int // -1, or the index of the *Url field of the carrier parameter
+	TypeIdx   int // parameter index of errors.ErrorType
+	FailIdx   int // parameter index of the failure flag; -1 when the flag is the constant FailConst (a wrapper for failures only)
+	FailConst bool
+	ErrResult int // index of the handler's answer among the results (a wrapper may return zero values beside it)
+	DescrIdx  int // -1 if none
+	CauseIdx  int // -1 if none
+	Ctor      *ssa.Function
+	CtorCall  *ssa.Call
 	// the decision (record? return?) may live in a helper shared by the handlers: `return p.report(u, e, failure)`
 	Core                                *ssa.Function
 	CoreCall                            *ssa.Call
@@ -42,6 +44,17 @@ func (h *handlerInfo) body() (fn *ssa.Function, url, e, fail ssa.Value) {
 		return h.Core, h.Core.Params[h.CoreUrlIdx], h.Core.Params[h.CoreErrIdx], h.Core.Params[h.CoreFailIdx]
 	}
 	return h.Fn, h.Fn.Params[h.UrlIdx], h.CtorCall, h.Fn.Params[h.FailIdx]
+}
+
+// failureAt: the failure flag of this call of the handler, when it is a constant (of the call, or of the wrapper).
+func (h *handlerInfo) failureAt(call *ssa.Call) (bool, bool) {
+	if h.FailIdx < 0 {
+		return h.FailConst, true
+	}
+	if h.FailIdx >= len(call.Common().Args) {
+		return false, false
+	}
+	return constBool(call.Common().Args[h.FailIdx])
 }
 
 // isURL: v (brought into the handler's own frame by resolve) is the URL the handler reports into — its *Url parameter,
@@ -288,9 +301,24 @@ func buildErrModel(c *Ctx) *errModel {
 						}
 					}
 				}
-				w := &handlerInfo{Fn: g, UrlField: uField, UrlIdx: uIdx, TypeIdx: idxOf(args[h.TypeIdx]), FailIdx: idxOf(args[h.FailIdx]), DescrIdx: -1, CauseIdx: -1, Ctor: h.Ctor, CtorCall: h.CtorCall, Forward: h, ForwardCall: hc}
-				if w.UrlIdx < 0 || w.TypeIdx < 0 || w.FailIdx < 0 {
+				fIdx, fConst := -1, false
+				if h.FailIdx >= 0 {
+					fIdx = idxOf(args[h.FailIdx])
+					if fIdx < 0 {
+						if k, isK := constBool(args[h.FailIdx]); isK {
+							fConst = k
+							fIdx = -2 // a constant
+						}
+					}
+				} else {
+					fConst, fIdx = h.FailConst, -2
+				}
+				w := &handlerInfo{Fn: g, UrlField: uField, UrlIdx: uIdx, TypeIdx: idxOf(args[h.TypeIdx]), FailIdx: fIdx, FailConst: fConst, DescrIdx: -1, CauseIdx: -1, Ctor: h.Ctor, CtorCall: h.CtorCall, Forward: h, ForwardCall: hc}
+				if w.UrlIdx < 0 || w.TypeIdx < 0 || w.FailIdx == -1 {
 					continue
+				}
+				if w.FailIdx == -2 {
+					w.FailIdx = -1
 				}
 				okRest := true
 				if h.DescrIdx >= 0 {
@@ -307,14 +335,32 @@ func buildErrModel(c *Ctx) *errModel {
 						okRest = false
 					}
 				}
-				// every return hands back the handler's answer
+				// every return hands back the handler's answer — beside constants (zero values) only, and always at the
+				// same place
+				errAt := -1
 				for _, b := range g.Blocks {
 					if r, isRet := b.Instrs[len(b.Instrs)-1].(*ssa.Return); isRet {
-						if len(r.Results) != 1 || r.Results[0] != ssa.Value(hc) {
+						at := -1
+						for i, rv := range r.Results {
+							if rv == ssa.Value(hc) {
+								if at >= 0 {
+									okRest = false
+								}
+								at = i
+							} else if _, isK := rv.(*ssa.Const); !isK {
+								okRest = false
+							}
+						}
+						if at < 0 || (errAt >= 0 && errAt != at) {
 							okRest = false
 						}
+						errAt = at
 					}
 				}
+				if h.ErrResult != 0 {
+					okRest = false // a wrapper of a tuple-returning wrapper: not followed
+				}
+				w.ErrResult = errAt
 				if !okRest {
 					continue
 				}
@@ -374,7 +420,7 @@ func buildErrModel(c *Ctx) *errModel {
 					s.TypeVal = constant.StringVal(k.Value)
 					s.TypeName = m.TypeNames[s.TypeVal]
 				}
-				s.Failure, s.FailKnown = constBool(call.Common().Args[h.FailIdx])
+				s.Failure, s.FailKnown = h.failureAt(call)
 				tn := s.TypeName
 				if tn == "" {
 					tn = "?"
@@ -516,7 +562,41 @@ func ctorFieldSources(f *ssa.Function) map[string]string {
 		}
 	}
 	out := map[string]string{}
+	// functional options: the constructor hands the maker closures built by option constructors
+	// (`newValidationError(t, url, failure, withDescr(descr), withCause(err))`); the maker applies every element of its
+	// variadic parameter to the fresh object, and each closure stores one of its captured values into one field
+	if ci.Maker != nil {
+		if g := ci.Maker.Common().StaticCallee(); g != nil && g.Signature.Variadic() && appliesEveryOption(g, ci.Alloc) {
+			for _, b := range f.Blocks {
+				for _, ins := range b.Instrs {
+					call, ok := ins.(*ssa.Call)
+					if !ok || call == ci.Maker {
+						continue
+					}
+					oc := call.Common().StaticCallee()
+					if oc == nil || len(oc.Blocks) == 0 {
+						continue
+					}
+					if _, isFn := call.Type().Underlying().(*types.Signature); !isFn {
+						continue
+					}
+					for fld, pi := range optionStores(oc) {
+						if pi < len(call.Common().Args) {
+							if p, ok := call.Common().Args[pi].(*ssa.Parameter); ok && p.Parent() == f {
+								out[fld] = p.Name()
+							} else {
+								out[fld] = "<" + call.Common().Args[pi].String() + ">"
+							}
+						}
+					}
+				}
+			}
+		}
+	}
 	for fld, v := range stored {
+		if _, set := out[fld]; set {
+			continue
+		}
 		if ci.Maker != nil {
 			// v is a value of the maker: a parameter of it stands for the argument at the call
 			if p, ok := v.(*ssa.Parameter); ok {
@@ -1475,7 +1555,7 @@ func checkErrUse(f *ssa.Function, errVals []ssa.Value, m *errModel) (string, str
 						for _, ins := range nonNil.Instrs {
 							if call, isCall := ins.(*ssa.Call); isCall {
 								if h := m.Handlers[call.Common().StaticCallee()]; h != nil && h.CauseIdx >= 0 && alias[call.Common().Args[h.CauseIdx]] {
-									if fl, known := constBool(call.Common().Args[h.FailIdx]); known && fl {
+									if fl, known := h.failureAt(call); known && fl {
 										wrappedHere = true
 									}
 								}
@@ -1568,4 +1648,108 @@ func hasRetry(f *ssa.Function) bool {
 		}
 	}
 	return false
+}
+
+// appliesEveryOption: the maker calls every element of its variadic (last) parameter with the fresh object as the
+// only argument, in a range loop over that parameter.
+func appliesEveryOption(g *ssa.Function, alloc *ssa.Alloc) bool {
+	if len(g.Params) == 0 {
+		return false
+	}
+	vp := g.Params[len(g.Params)-1]
+	for _, b := range g.Blocks {
+		for _, ins := range b.Instrs {
+			call, ok := ins.(*ssa.Call)
+			if !ok || call.Common().StaticCallee() != nil || call.Common().IsInvoke() || len(call.Common().Args) != 1 {
+				continue
+			}
+			if call.Common().Args[0] != ssa.Value(alloc) {
+				continue
+			}
+			ld, ok := call.Common().Value.(*ssa.UnOp)
+			if !ok || ld.Op != token.MUL {
+				continue
+			}
+			ia, ok := ld.X.(*ssa.IndexAddr)
+			if !ok || ia.X != ssa.Value(vp) {
+				continue
+			}
+			// the index is the key of the range loop over the parameter
+			if bo, ok := ia.Index.(*ssa.BinOp); ok && bo.Op == token.ADD {
+				if phi, ok := bo.X.(*ssa.Phi); ok && phi.Comment == "rangeindex" {
+					return true
+				}
+			}
+		}
+	}
+	return false
+}
+
+// optionStores: for an option constructor (a function every return of which is one closure literal), the fields of the
+// closure's first parameter that the closure stores a captured parameter of the constructor into: field -> index of
+// that parameter.
+func optionStores(oc *ssa.Function) map[string]int {
+	out := map[string]int{}
+	for _, b := range oc.Blocks {
+		r, ok := b.Instrs[len(b.Instrs)-1].(*ssa.Return)
+		if !ok {
+			continue
+		}
+		if len(r.Results) != 1 {
+			return nil
+		}
+		rv := r.Results[0]
+		if ct, isCT := rv.(*ssa.ChangeType); isCT {
+			rv = ct.X // func literal converted to the named option type
+		}
+		mc, ok := rv.(*ssa.MakeClosure)
+		if !ok {
+			return nil
+		}
+		fn, ok := mc.Fn.(*ssa.Function)
+		if !ok || len(fn.Params) == 0 {
+			return nil
+		}
+		for _, cb := range fn.Blocks {
+			for _, ins := range cb.Instrs {
+				st, ok := ins.(*ssa.Store)
+				if !ok {
+					continue
+				}
+				fa, ok := st.Addr.(*ssa.FieldAddr)
+				if !ok || fa.X != ssa.Value(fn.Params[0]) {
+					continue
+				}
+				// the stored value: a captured variable (the free variable holds the parameter, or its address)
+				v := st.Val
+				if ld, ok := v.(*ssa.UnOp); ok && ld.Op == token.MUL {
+					v = ld.X
+				}
+				fv, ok := v.(*ssa.FreeVar)
+				if !ok {
+					continue
+				}
+				for i, x := range fn.FreeVars {
+					if x != fv || i >= len(mc.Bindings) {
+						continue
+					}
+					bv := mc.Bindings[i]
+					// a captured parameter may be spilled into a cell first
+					if al, ok := bv.(*ssa.Alloc); ok {
+						for _, rr := range *al.Referrers() {
+							if s2, ok := rr.(*ssa.Store); ok && s2.Addr == ssa.Value(al) {
+								bv = s2.Val
+							}
+						}
+					}
+					for pi, p := range oc.Params {
+						if ssa.Value(p) == bv {
+							out[strings.TrimPrefix(fieldElem(fa.X.Type(), fa.Field), "ValidationError:")] = pi
+						}
+					}
+				}
+			}
+		}
+	}
+	return out
 }
